@@ -122,10 +122,20 @@ pub fn gen_program(rng: &mut Rng, o: &GenOpts) -> Program {
     }
     for t in 0..n_tasks { for u in 0..n_tasks { tkind[t][u] = pick_okind(rng); } }
   }
-  let mut tasks = Vec::with_capacity(n_tasks);
-  for i in 0..n_tasks {
+  // Tasks are generated from the last to the first, so that a task can pick an intermediate task that is already known
+  // to require a generator in every state (for transitive reads).
+  let mut built: Vec<Option<TaskDef>> = vec![None; n_tasks];
+  for i in (0..n_tasks).rev() {
     let later: Vec<u32> = ((i + 1) as u32..n_tasks as u32).collect();
     let gens: Vec<u32> = (n_src..n_res).filter(|&g| owner[g].unwrap() as usize > i).map(|g| g as u32).collect();
+    // (g, m): m > i always (transitively) requires owner(g), m != owner(g)
+    let mut vias: Vec<(u32, u32)> = Vec::new();
+    for &g in &gens {
+      let w = owner[g as usize].unwrap();
+      for m in (i + 1)..n_tasks {
+        if m as u32 != w && always_requires(&built, &owner, m as u32).contains(&w) { vias.push((g, m as u32)); }
+      }
+    }
     let n_ops = rng.range(1, o.max_ops);
     let mut ops = Vec::new();
     for _ in 0..n_ops {
@@ -135,7 +145,12 @@ pub fn gen_program(rng: &mut Rng, o: &GenOpts) -> Program {
       } else if roll < 60 && !later.is_empty() {
         ops.push(Op::Require { sel: sel_over(rng, &later), ok: None });
       } else if roll < 85 && !gens.is_empty() {
-        ops.push(Op::ReadGen { sel: sel_over(rng, &gens), kind: None, ok: None });
+        if !vias.is_empty() && rng.chance(1, 3) {
+          let (g, m) = *rng.pick(&vias);
+          ops.push(Op::ReadVia { res: g, via: m });
+        } else {
+          ops.push(Op::ReadGen { sel: sel_over(rng, &gens), kind: None, ok: None });
+        }
       } else if roll < 95 {
         ops.push(Op::SkipIf { pred: gen_pred(rng), n: rng.range(1, 2) as u8 });
       } else {
@@ -157,9 +172,35 @@ pub fn gen_program(rng: &mut Rng, o: &GenOpts) -> Program {
       }
     }
     let out = match rng.below(20) { 0..=9 => OutFn::Hash, 10..=16 => OutFn::Mod(rng.range(2, 4) as u32), _ => OutFn::Const(rng.below(3) as u32) };
-    tasks.push(TaskDef { ops, rkind: rkind[i].clone(), tkind: tkind[i].clone(), out });
+    built[i] = Some(TaskDef { ops, rkind: rkind[i].clone(), tkind: tkind[i].clone(), out });
   }
+  let tasks: Vec<TaskDef> = built.into_iter().map(|t| t.unwrap()).collect();
   Program { tasks, n_res, owner, label: if o.exact_only { "well-formed/exact".into() } else { "well-formed/mixed-checkers".into() } }
+}
+
+/// Tasks that task `m` requires in every state, transitively: targets of constant requires / ReadGen / ReadVia at
+/// positions that no SkipIf can jump over.
+fn always_requires(built: &[Option<TaskDef>], owner: &[Option<u32>], m: u32) -> Vec<u32> {
+  let mut out: Vec<u32> = Vec::new();
+  let mut stack = vec![m];
+  while let Some(t) = stack.pop() {
+    let Some(def) = &built[t as usize] else { continue; };
+    let mut skippable = vec![false; def.ops.len()];
+    for (p, op) in def.ops.iter().enumerate() {
+      if let Op::SkipIf { n, .. } = op { for q in p + 1..=(p + *n as usize).min(def.ops.len().saturating_sub(1)) { skippable[q] = true; } }
+    }
+    for (p, op) in def.ops.iter().enumerate() {
+      if skippable[p] { continue; }
+      let target = match op {
+        Op::Require { sel: Sel::Const(u), .. } => Some(*u),
+        Op::ReadGen { sel: Sel::Const(g), .. } => owner[*g as usize],
+        Op::ReadVia { via, .. } => Some(*via),
+        _ => None,
+      };
+      if let Some(u) = target { if !out.contains(&u) { out.push(u); stack.push(u); } }
+    }
+  }
+  out
 }
 
 pub fn gen_init(rng: &mut Rng, p: &Program) -> Vec<Option<u32>> {
@@ -370,6 +411,7 @@ pub enum Inject { HiddenRead, HiddenWrite, Overlap, Cycle, UserPanic }
 fn task_mentions_res(def: &TaskDef, r: u32) -> bool {
   def.ops.iter().any(|o| match o {
     Op::Read { sel, .. } | Op::ReadGen { sel, .. } => sel.targets().contains(&r),
+    Op::ReadVia { res, .. } => *res == r,
     Op::Write { res, .. } => *res == r,
     _ => false,
   })
